@@ -2,6 +2,7 @@ SPECIFICATION Spec
 CONSTANT Thread = {t1, t2}
 CONSTANT MaxOps = 3
 CONSTANT AtomicId = FALSE
+CONSTANT StackScratch = TRUE
 CONSTANT OwnedDrop = TRUE
 INVARIANT NonInterference
 INVARIANT NamesUnique
